@@ -91,6 +91,43 @@ class LeanStatus:
         return "audit failed"
 
 
+
+def _audit_module(mod: str, tag: str) -> tuple[int, str]:
+    """`#audit_module mod` (axioms per theorem). The output is cached under .lake/audit keyed by the digest of the module's
+    compiled .olean, so an unchanged proof module is not re-elaborated by every check."""
+    olean = LEAN / ".lake" / "build" / "lib" / "lean" / (mod.replace(".", "/") + ".olean")
+    audit_dir = LEAN / ".lake" / "audit"
+    audit_dir.mkdir(parents=True, exist_ok=True)
+    key = None
+    try:
+        # the axioms of a theorem also depend on the modules it imports: key on every compiled project module
+        lib = LEAN / ".lake" / "build" / "lib" / "lean"
+        h = hashlib.sha256(olean.read_bytes())
+        for f in sorted(lib.rglob("*.olean")):
+            stt = f.stat()
+            h.update(f"{f.relative_to(lib)}:{stt.st_size}:{stt.st_mtime_ns};".encode())
+        key = h.hexdigest()
+        cf = audit_dir / f"cache_{mod}.json"
+        if cf.exists():
+            c = json.loads(cf.read_text())
+            if c.get("key") == key:
+                return 0, c["out"]
+    except OSError:
+        pass
+    af = audit_dir / f"Audit_{tag}_{os.getpid()}.lean"
+    af.write_text(f"import PytaskProofs.AuditTool\nimport {mod}\n#audit_module {mod}\n")
+    try:
+        r = subprocess.run(["lake", "env", "lean", str(af)], capture_output=True, text=True, cwd=LEAN)
+    finally:
+        af.unlink(missing_ok=True)
+    if r.returncode == 0 and key is not None:
+        try:
+            (audit_dir / f"cache_{mod}.json").write_text(json.dumps({"key": key, "out": r.stdout}))
+        except OSError:
+            pass
+    return r.returncode, (r.stdout if r.returncode == 0 else r.stdout + r.stderr)
+
+
 def lean_pipeline(prop: str, clean: bool = False) -> LeanStatus:
     """extract → lake build → forbidden grep → axioms audit for Properties/<prop>.lean."""
     import fcntl
@@ -147,17 +184,14 @@ def _lean_pipeline(prop: str, clean: bool = False) -> LeanStatus:
         st.audit_ok = False
         return st
     st.examples = len(re.findall(r"^\s*example\b", strip_comments(pfile.read_text()), flags=re.M))
-    audit_dir = LEAN / ".lake" / "audit"
-    audit_dir.mkdir(parents=True, exist_ok=True)
-    af = audit_dir / f"Audit_{prop}_{os.getpid()}.lean"
-    af.write_text(f"import PytaskProofs.AuditTool\nimport PytaskProofs.Properties.{prop}\n#audit_module PytaskProofs.Properties.{prop}\n")
-    try:
-        r = subprocess.run(["lake", "env", "lean", str(af)], capture_output=True, text=True, cwd=LEAN)
-    finally:
-        af.unlink(missing_ok=True)
-    if r.returncode != 0:
-        st.build_log += r.stdout + r.stderr
+    rc, aout = _audit_module(f"PytaskProofs.Properties.{prop}", prop)
+    if rc != 0:
+        st.build_log += aout
         return st
+
+    class _R:   # keep the parsing code below unchanged
+        stdout = aout
+    r = _R()
     for line in r.stdout.splitlines():
         m = re.match(r".*AUDIT (\S+) \[(.*)\]\s*$", line)
         if not m:
@@ -212,13 +246,9 @@ def _ties(prop: str, st: LeanStatus, failed_sections: dict) -> None:
         r = subprocess.run(["lake", "build", mod], capture_output=True, text=True, cwd=LEAN)
         out = r.stdout + r.stderr
         if r.returncode == 0:
-            af = LEAN / ".lake" / "audit" / f"Audit_{name}_{prop}_{os.getpid()}.lean"
-            af.write_text(f"import PytaskProofs.AuditTool\nimport {mod}\n#audit_module {mod}\n")
-            try:
-                r = subprocess.run(["lake", "env", "lean", str(af)], capture_output=True, text=True, cwd=LEAN)
-            finally:
-                af.unlink(missing_ok=True)
-            out = r.stdout + r.stderr
+            rc2, aout = _audit_module(mod, f"{name}_{prop}")
+            r = subprocess.CompletedProcess([], rc2, aout, "")
+            out = aout
         seen = {}
         if r.returncode == 0:
             for line in r.stdout.splitlines():
